@@ -375,6 +375,7 @@ package redis
 //@   modifies all, handledn, lasthandled
 //@   ghostdef handledn == old(handledn) + 1 && lasthandled == req
 //@   callpre SetResponse @locally-built-replies-are-one-line oneline(arg1)
+//@   callpre RegisterHook @the-request-is-counted-before-its-completion-hooks-are-registered statval[p.stats.Downstream.RqTotal] >= uint64(old(statval[p.stats.Downstream.RqTotal]) + 1) || statval[p.stats.Downstream.RqTotal] < old(statval[p.stats.Downstream.RqTotal])
 //@   requires p != nil && req != nil && req.body != nil
 //@   requires @handlers-wellformed forall k string :: has(p.cmdHdlrs, k) ==> p.cmdHdlrs[k] != nil
 //@   callpre field:commandHandler.handle @dispatch-only-registered-commands-on-validated-requests validbody(req.body) && has(p.cmdHdlrs, lower(str(req.body.Array[0].Text)))
@@ -812,3 +813,17 @@ package redis
 //@   callpre Encode @the-reply-of-the-next-queued-request arg0 == s.enc && arg1 == req.resp && req == sentat(s.processingReqs, recvcount(s.processingReqs) - 1) && encn[s.enc] - old(encn[s.enc]) == recvcount(s.processingReqs) - old(recvcount(s.processingReqs)) - 1
 //@   loop 0 invariant encn[s.enc] - old(encn[s.enc]) == recvcount(s.processingReqs) - old(recvcount(s.processingReqs))
 //@   ensures @never-more-replies-than-requests encn[s.enc] - old(encn[s.enc]) <= recvcount(s.processingReqs) - old(recvcount(s.processingReqs))
+
+// ---- C20: request counters: one "total" per request when it arrives, one of success/failure when it completes ----
+
+//@ func (*redisProc).handleRequest$1
+//@   prop C20
+//@   requires req != nil && req.resp != nil && deref(p) != nil && deref(p).stats != nil
+//@   requires @distinct-counters deref(p).stats.Downstream.RqFailureTotal != deref(p).stats.Downstream.RqSuccessTotal && deref(p).stats.Downstream.RqTotal != deref(p).stats.Downstream.RqSuccessTotal && deref(p).stats.Downstream.RqTotal != deref(p).stats.Downstream.RqFailureTotal
+//@   modifies statval
+//@   ensures @exactly-one-of-success-or-failure statval[deref(p).stats.Downstream.RqFailureTotal] == uint64(old(statval[deref(p).stats.Downstream.RqFailureTotal]) + ite(req.resp.Type == 45, 1, 0)) && statval[deref(p).stats.Downstream.RqSuccessTotal] == uint64(old(statval[deref(p).stats.Downstream.RqSuccessTotal]) + ite(req.resp.Type == 45, 0, 1)) && statval[deref(p).stats.Downstream.RqTotal] == old(statval[deref(p).stats.Downstream.RqTotal])
+
+//@ func (*rawRequest).Duration
+//@   prop C20
+//@   requires r != nil
+//@   modifies nothing
